@@ -1036,3 +1036,5 @@ def check(run, prog):
     rule_comment_layout(run, prog, "R-3.7")
     from .snippet_rules import rule_chained_comments
     rule_chained_comments(run, prog)         # R-3.8
+    from .snippet_rules import rule_brace_tail
+    rule_brace_tail(run, prog)               # R-3.9
